@@ -1,24 +1,63 @@
-//! C20, node-level stream: a real node (SharedBuilder + chain service) is fed blocks carrying
-//! proposal ids (own and in uncles); after every main-chain change, truncation and restart the
-//! view in `Shared::snapshot().proposals()` is compared with the model and with a direct union over
-//! the main chain kept by the harness; commitments of real transactions are offered at random
-//! moments (around the window edges) and the block verdict is compared with the window.
+//! C20, node-level streams: a real node (SharedBuilder + chain service, optionally the tx-pool
+//! service) is fed blocks carrying proposal ids (own and in embedded uncles). After EVERY tip change,
+//! truncation and restart every consumer of the proposal view is compared with a window oracle that
+//! is computed from the node's STORED main chain (`union_proposal_ids()` of the blocks at distance
+//! w_close..=w_far / 1..w_close from the next block), with the chain the harness delivered, and with
+//! the Lean model (lean/CkbVerif/Driver/C20.lean):
+//!
+//!   (a) `Shared::snapshot().proposals()` set and gap;
+//!   (b) the commit verifier as a black box: the next block committing real always-success
+//!       transactions is submitted to the node: accepted <=> every committed id is in the oracle set;
+//!   (c) the pool's staging (`get_tx_status` at submission / re-admission, the stage moves of
+//!       `_update_tx_pool_for_reorg`, the ids moved back from Proposed on a reorg) and what
+//!       `get_block_template` packages.
+//!
+//! Families (first extra argument; one stream each in checks/C20.json):
+//!   (none) `node`  random histories: extensions, first-time forks, switch-backs to an abandoned
+//!                  branch (re-attached blocks have ext.verified == Some(true)), truncations,
+//!                  extensions of a cut-off verified branch, restarts, commitments near the edges;
+//!   `edge`         per window a planned linear chain longer than w_far+2 (nothing clamped at genesis,
+//!                  plus a short-chain prelude): every transaction is proposed in a main-chain block
+//!                  or ONLY in an embedded uncle and its commitment is offered at distance
+//!                  w_close-1, w_close, mid, w_far, w_far+1, w_far+2 from the proposal, and after
+//!                  re-proposals inside / outside the window;
+//!   `fork`         per window, for every depth class relative to the window (1 .. w_far+2):
+//!                  A, first-time fork B, switch-back A', switch-back B', truncate to the fork point,
+//!                  extension of the cut-off (verified) branch, truncate again; restarts interleaved;
+//!   `pool`         node WITH the tx-pool service: ids in set only / gap only / both (re-proposal) /
+//!                  neither / expired, submitted before and after their proposals; a reorganisation
+//!                  that re-admits committed transactions and drops a Proposed one.
 //!
 //! Protocol (model side: lean/CkbVerif/Driver/C20.lean):
 //!   cfg <close> <far>              -> ok <close> <far>
 //!   nboot                          -> set=<ids> gap=<ids>        (first start, genesis only)
 //!   nswitch <common> <ids>*        -> set=.. gap=..              (what verify_block / truncate did)
 //!   nrestart                       -> set=.. gap=..              (stop, start on the same directory)
-//!   verify <id>                    -> ok | invalid               (block tip+1 committing tx <id>)
-//! ids 1..=N_TX are the proposal short ids of real transactions spending genesis cells; ids >= 100
+//!   verify <ids>                   -> ok | invalid               (block tip+1 committing txs <ids>)
+//!   status <id>                    -> proposed | gap | fresh     (get_tx_status on the current view)
+//!   nswitchm <watch> <common> <ids>* -> moved=<ids> set=.. gap=..  (moved = detached_proposal_id ∩ watch)
+//!   pool <ids>                     -> proposed=<ids>             (of the pooled ids, those staged Proposed)
+//!   ncommit <ids>                  -> ok                         (the next pool-family block commits these; replay only)
+//! ids 1..=n_tx are the proposal short ids of real transactions spending genesis cells; ids >= 100
 //! are arbitrary short ids.
 use crate::common::*;
 use crate::node::*;
+use ckb_app_config::{BlockAssemblerConfig, NetworkConfig};
+use ckb_chain::ChainServiceScope;
+use ckb_chain_spec::consensus::Consensus;
+use ckb_jsonrpc_types::ScriptHashType;
+use ckb_network::{Flags, NetworkController, NetworkService, NetworkState, network::TransportType};
+use ckb_shared::{Shared, SharedBuilder};
+use ckb_store::ChainStore;
+use ckb_tx_pool::verif::Status;
 use ckb_types::core::{BlockView, TransactionView};
-use ckb_types::packed::{Byte32, ProposalShortId};
-use std::collections::{BTreeSet, HashMap};
-
-const N_TX: u64 = 12;
+use ckb_types::h256;
+use ckb_types::packed::{self, Byte32, ProposalShortId};
+use ckb_types::prelude::*;
+use std::collections::{BTreeMap, BTreeSet, HashMap};
+use std::path::{Path, PathBuf};
+use std::sync::Arc;
+use std::time::{Duration, Instant};
 
 fn show_set(s: &BTreeSet<u64>) -> String {
     if s.is_empty() { "-".into() } else { s.iter().map(|x| x.to_string()).collect::<Vec<_>>().join(",") }
@@ -28,6 +67,85 @@ fn show_list(ids: &[u64]) -> String {
     if ids.is_empty() { "-".into() } else { ids.iter().map(|x| x.to_string()).collect::<Vec<_>>().join(",") }
 }
 
+// ------------------------------------------------------------------------------------------------
+// the node (own start function: block-assembler interval 0 so that the template follows the pool
+// without a timer; everything else as node.rs::Node::start)
+// ------------------------------------------------------------------------------------------------
+
+struct N {
+    shared: Shared,
+    chain: Option<ChainServiceScope>,
+    _network: Option<NetworkController>,
+}
+
+fn dummy_network(shared: &Shared, dir: &Path) -> NetworkController {
+    let config = NetworkConfig {
+        max_peers: 19,
+        max_outbound_peers: 5,
+        path: dir.join("network"),
+        ping_interval_secs: 15,
+        ping_timeout_secs: 20,
+        connect_outbound_interval_secs: 1,
+        discovery_local_address: true,
+        bootnode_mode: true,
+        reuse_port_on_linux: true,
+        ..Default::default()
+    };
+    let network_state = Arc::new(NetworkState::from_config(config).expect("Init network state failed"));
+    NetworkService::new(network_state, vec![], vec![], (shared.consensus().identify_name(), "test".to_string(), Flags::COMPATIBILITY), TransportType::Tcp)
+        .start(shared.async_handle())
+        .expect("Start network service failed")
+}
+
+impl N {
+    fn start(dir: &Path, consensus: Consensus, with_pool: bool) -> N {
+        std::fs::create_dir_all(dir.join("header_map")).unwrap();
+        let db_config = ckb_app_config::DBConfig { path: dir.join("db"), ..Default::default() };
+        let builder = SharedBuilder::new("verif", dir, &db_config, None, runtime_handle(), consensus)
+            .unwrap_or_else(|e| panic!("SharedBuilder::new failed: {e:?}"))
+            .header_map_tmp_dir(Some(dir.join("header_map")));
+        let ba = BlockAssemblerConfig {
+            code_hash: h256!("0x0"),
+            args: Default::default(),
+            hash_type: ScriptHashType::Data,
+            message: Default::default(),
+            use_binary_version_as_message_prefix: false,
+            binary_version: "TEST".to_string(),
+            update_interval_millis: 0,
+            notify: vec![],
+            notify_scripts: vec![],
+            notify_timeout_millis: 800,
+        };
+        let (shared, mut pack) = builder.block_assembler_config(Some(ba)).build().unwrap_or_else(|e| panic!("SharedBuilder::build failed: {e:?}"));
+        let network = if with_pool {
+            let n = dummy_network(&shared, dir);
+            pack.take_tx_pool_builder().start(n.clone());
+            Some(n)
+        } else {
+            None
+        };
+        let chain = ChainServiceScope::new(pack.take_chain_services_builder());
+        N { shared, chain: Some(chain), _network: network }
+    }
+    fn process(&self, block: &BlockView) -> Result<bool, String> {
+        self.chain.as_ref().unwrap().chain_controller().blocking_process_block(Arc::new(block.clone())).map_err(|e| e.to_string())
+    }
+    fn truncate(&self, hash: Byte32) -> Result<(), String> {
+        self.chain.as_ref().unwrap().chain_controller().truncate(hash).map_err(|e| e.to_string())
+    }
+    fn tip_hash(&self) -> Byte32 {
+        self.shared.snapshot().tip_hash()
+    }
+    fn stop(mut self) {
+        self.chain.take();
+    }
+}
+
+// ------------------------------------------------------------------------------------------------
+// the simulation shared by all families
+// ------------------------------------------------------------------------------------------------
+
+#[derive(Clone)]
 struct Blk {
     hash: Byte32,
     /// union proposal ids (own + uncles')
@@ -36,19 +154,95 @@ struct Blk {
     committed: Vec<u64>,
 }
 
+/// what one new block shall carry
+#[derive(Clone, Default)]
+struct Spec {
+    ids: Vec<u64>,
+    uncle_ids: Option<Vec<u64>>,
+    commits: Vec<u64>,
+}
+
 struct Sim {
-    cfg: NodeCfg,
-    node: Option<Node>,
+    window: (u64, u64),
+    n_tx: u64,
+    dir: PathBuf,
+    consensus: Consensus,
+    with_pool: bool,
+    node: Option<N>,
     builder: ChainBuilder,
     txs: Vec<TransactionView>,
     idmap: HashMap<ProposalShortId, u64>,
+    /// the main chain as delivered (index = block number)
     chain: Vec<Blk>,
+    /// abandoned main chains (full, from genesis) whose tip is not on the main chain
+    old: Vec<Vec<Blk>>,
     salt: u64,
+    uniq: u64,
+    /// set after an oracle failure that leaves node and harness out of step
+    dead: bool,
 }
 
 impl Sim {
+    fn new(base: &Path, tag: &str, window: (u64, u64), n_tx: u64, with_pool: bool) -> Sim {
+        let cfg = NodeCfg { epoch_len: 1000, window, genesis_cells: n_tx, with_pool: false, ..Default::default() };
+        let consensus = make_consensus(&cfg);
+        let dir = base.join(tag);
+        let _ = std::fs::remove_dir_all(&dir);
+        let node = N::start(&dir.join("node"), consensus.clone(), with_pool);
+        let builder = ChainBuilder::new(consensus.clone(), &dir.join("builder"));
+        let cells = genesis_cells(&consensus);
+        let txs: Vec<TransactionView> = (0..n_tx as usize).map(|i| spend_tx(&cells[i..i + 1], 1, 1000, i as u64)).collect();
+        let mut sim = Sim {
+            window,
+            n_tx,
+            dir,
+            consensus: consensus.clone(),
+            with_pool,
+            node: Some(node),
+            builder,
+            txs,
+            idmap: HashMap::new(),
+            chain: vec![],
+            old: vec![],
+            salt: 0,
+            uniq: 0,
+            dead: false,
+        };
+        for i in (1..=n_tx).chain(100..1200) {
+            let p = sim.pid(i);
+            sim.idmap.insert(p, i);
+        }
+        sim.chain.push(Blk { hash: consensus.genesis_hash(), ids: vec![], committed: vec![] });
+        sim
+    }
+
+    fn begin(&mut self, out: &mut Out, label: &str) {
+        let (c, f) = self.window;
+        out.begin_case(&format!("{label} w={c},{f}"));
+        out.op(&format!("cfg {c} {f}"), &format!("ok {c} {f}"));
+        let l = self.view_line(out, "nboot");
+        out.op("nboot", &l);
+    }
+
+    fn finish(mut self) {
+        if let Some(n) = self.node.take() {
+            n.stop();
+        }
+        let dir = self.dir.clone();
+        drop(self);
+        let _ = std::fs::remove_dir_all(&dir);
+    }
+
+    fn n(&self) -> &N {
+        self.node.as_ref().unwrap()
+    }
+
+    fn tip(&self) -> u64 {
+        self.chain.len() as u64 - 1
+    }
+
     fn pid(&self, id: u64) -> ProposalShortId {
-        if id >= 1 && id <= N_TX {
+        if id >= 1 && id <= self.n_tx {
             self.txs[id as usize - 1].proposal_short_id()
         } else {
             let mut b = [0u8; 10];
@@ -57,71 +251,269 @@ impl Sim {
             ProposalShortId::new(b)
         }
     }
-    fn window(&self) -> (BTreeSet<u64>, BTreeSet<u64>) {
-        let (close, far) = self.cfg.window;
-        let next = self.chain.len() as u64;
+
+    fn small(&self, p: &ProposalShortId) -> u64 {
+        self.idmap.get(p).copied().unwrap_or(u64::MAX)
+    }
+
+    /// a fresh arbitrary id (never a transaction's)
+    fn unique_id(&mut self) -> u64 {
+        self.uniq += 1;
+        200 + (self.uniq % 1000)
+    }
+
+    /// the window over the chain the harness delivered
+    fn window_of(&self, chain: &[Blk]) -> (BTreeSet<u64>, BTreeSet<u64>) {
+        let (close, far) = self.window;
+        let next = chain.len() as u64;
         let (mut set, mut gap) = (BTreeSet::new(), BTreeSet::new());
         for n in 1..next {
             let d = next - n;
             if d >= close && d <= far {
-                set.extend(self.chain[n as usize].ids.iter().copied());
+                set.extend(chain[n as usize].ids.iter().copied());
             } else if d < close {
-                gap.extend(self.chain[n as usize].ids.iter().copied());
+                gap.extend(chain[n as usize].ids.iter().copied());
             }
         }
         (set, gap)
     }
+
+    fn window(&self) -> (BTreeSet<u64>, BTreeSet<u64>) {
+        self.window_of(&self.chain)
+    }
+
+    /// the window oracle over the node's STORED main chain: for every main-chain block at distance
+    /// d from the next block, `union_proposal_ids()` (own proposals and the embedded uncles')
+    fn store_window(&self) -> (BTreeSet<u64>, BTreeSet<u64>, u64) {
+        let (close, far) = self.window;
+        let snap = self.n().shared.snapshot();
+        let store = self.n().shared.store();
+        let tip = snap.tip_number();
+        let next = tip + 1;
+        let (mut set, mut gap) = (BTreeSet::new(), BTreeSet::new());
+        for n in next.saturating_sub(far)..=tip {
+            let d = next - n;
+            let blk = store.get_block_hash(n).and_then(|h| store.get_block(&h));
+            let Some(blk) = blk else { continue };
+            let ids: Vec<u64> = blk.union_proposal_ids().iter().map(|p| self.small(p)).collect();
+            if d >= close && d <= far {
+                set.extend(ids);
+            } else if d < close {
+                gap.extend(ids);
+            }
+        }
+        (set, gap, tip)
+    }
+
+    /// (a): the snapshot's view against both oracles; returns the model line
     fn view_line(&self, out: &mut Out, what: &str) -> String {
-        let node = self.node.as_ref().unwrap();
+        let node = self.n();
         let snap = node.shared.snapshot();
         let p = snap.proposals();
-        let conv = |s: &std::collections::HashSet<ProposalShortId>| -> BTreeSet<u64> {
-            s.iter().map(|x| self.idmap.get(x).copied().unwrap_or(u64::MAX)).collect()
-        };
+        let conv = |s: &std::collections::HashSet<ProposalShortId>| -> BTreeSet<u64> { s.iter().map(|x| self.small(x)).collect() };
         let (set, gap) = (conv(p.set()), conv(p.gap()));
         let (wset, wgap) = self.window();
+        let (sset, sgap, stip) = self.store_window();
         if set != wset {
-            out.oracle_fail("node-set-not-window", &format!("{what}: snapshot set={} window={} tip={}", show_set(&set), show_set(&wset), self.chain.len() - 1));
+            out.oracle_fail("node-set-not-window", &format!("{what}: snapshot set={} window={} tip={}", show_set(&set), show_set(&wset), self.tip()));
         }
         if gap != wgap {
-            out.oracle_fail("node-gap-not-window", &format!("{what}: snapshot gap={} window={} tip={}", show_set(&gap), show_set(&wgap), self.chain.len() - 1));
+            out.oracle_fail("node-gap-not-window", &format!("{what}: snapshot gap={} window={} tip={}", show_set(&gap), show_set(&wgap), self.tip()));
+        }
+        if set != sset {
+            out.oracle_fail("node-set-not-stored-window", &format!("{what}: snapshot set={} stored window={} stored tip={stip}", show_set(&set), show_set(&sset)));
+        }
+        if gap != sgap {
+            out.oracle_fail("node-gap-not-stored-window", &format!("{what}: snapshot gap={} stored window={} stored tip={stip}", show_set(&gap), show_set(&sgap)));
         }
         if node.tip_hash() != self.chain.last().unwrap().hash {
             out.oracle_fail("node-tip-unexpected", what);
         }
+        out.count("view-checked");
         format!("set={} gap={}", show_set(&set), show_set(&gap))
     }
+
     fn committed_on_main(&self) -> BTreeSet<u64> {
         self.chain.iter().flat_map(|b| b.committed.iter().copied()).collect()
     }
-    /// build one block on `parent` with the given own ids, optionally an uncle (a sibling of the
-    /// parent) carrying `uncle_ids`, optionally committing tx `commit`
-    fn build(&mut self, parent: &Byte32, ids: &[u64], uncle_ids: Option<&[u64]>, commit: Option<u64>) -> (BlockView, Vec<u64>) {
+
+    /// build one block on `parent`: own ids, optionally ONE embedded uncle (a sibling of the parent)
+    /// carrying `uncle_ids`, committing the txs `commits`
+    fn build(&mut self, parent: &Byte32, spec: &Spec) -> (BlockView, Vec<u64>) {
         self.salt += 1;
-        let mut union: Vec<u64> = ids.to_vec();
+        let mut union: Vec<u64> = spec.ids.clone();
         let mut uncles = vec![];
-        if let Some(uids) = uncle_ids {
+        if let Some(uids) = &spec.uncle_ids {
             let p = self.builder.block(parent).clone();
             if p.number() >= 1 {
                 self.salt += 1;
-                let spec = BlockSpec { proposals: uids.iter().map(|i| self.pid(*i)).collect(), salt: 1_000_000 + self.salt, ..Default::default() };
-                let u = self.builder.build(&p.parent_hash(), &spec);
+                let us = BlockSpec { proposals: uids.iter().map(|i| self.pid(*i)).collect(), salt: 1_000_000 + self.salt, ..Default::default() };
+                let u = self.builder.build(&p.parent_hash(), &us);
                 uncles.push(u.as_uncle());
-                union.extend(uids.iter().copied());
+                for i in uids {
+                    if !union.contains(i) {
+                        union.push(*i);
+                    }
+                }
             }
         }
-        let spec = BlockSpec {
-            proposals: ids.iter().map(|i| self.pid(*i)).collect(),
+        let bs = BlockSpec {
+            proposals: spec.ids.iter().map(|i| self.pid(*i)).collect(),
             uncles,
-            txs: commit.map(|i| vec![self.txs[i as usize - 1].clone()]).unwrap_or_default(),
+            txs: spec.commits.iter().map(|i| self.txs[*i as usize - 1].clone()).collect(),
             salt: self.salt,
             ..Default::default()
         };
-        (self.builder.build(parent, &spec), union)
+        (self.builder.build(parent, &bs), union)
+    }
+
+    /// Deliver new blocks on top of `base` (a full chain from genesis: the main chain itself for an
+    /// extension, a prefix of it for a first-time fork, an abandoned chain for a switch-back or for
+    /// the extension of a cut-off branch). Returns the number of tip changes.
+    fn deliver(&mut self, out: &mut Out, base: Vec<Blk>, specs: &[Spec], what: &str) -> usize {
+        let mut cand = base;
+        let mut changes = 0;
+        for spec in specs {
+            if self.dead {
+                break;
+            }
+            let parent = cand.last().unwrap().hash.clone();
+            let (blk, union) = self.build(&parent, spec);
+            let r = self.n().process(&blk);
+            if r != Ok(true) {
+                out.oracle_fail("node-rejects-valid-block", &format!("{what}: block {} on {}: {:?}", blk.number(), cand.len() - 1, r));
+                self.dead = true;
+                break;
+            }
+            cand.push(Blk { hash: blk.hash(), ids: union, committed: spec.commits.clone() });
+            let is_tip = self.n().tip_hash() == blk.hash();
+            let expect_tip = cand.len() > self.chain.len();
+            if is_tip != expect_tip {
+                out.oracle_fail("node-tip-unexpected", &format!("{what}: block {} is_tip={is_tip}, delivered chain length {} against main {}", blk.number(), cand.len(), self.chain.len()));
+                self.dead = true;
+                break;
+            }
+            if is_tip {
+                let common = self.chain.iter().zip(cand.iter()).take_while(|(a, b)| a.hash == b.hash).count() - 1;
+                if common + 1 < self.chain.len() {
+                    let old = std::mem::take(&mut self.chain);
+                    self.remember(old);
+                    out.count("tip-change-with-detach");
+                }
+                let mut op = format!("nswitch {common}");
+                for b in &cand[common + 1..] {
+                    op.push(' ');
+                    op.push_str(&show_list(&b.ids));
+                }
+                self.chain = cand.clone();
+                let l = self.view_line(out, &format!("{what}: {op}"));
+                out.op(&op, &l);
+                changes += 1;
+            } else {
+                // a side block was stored: the view must not move
+                let _ = self.view_line(out, &format!("{what}: side block {} stored", blk.number()));
+            }
+        }
+        // the branch is remembered even if it never became the main chain
+        if !self.dead && cand.last().unwrap().hash != self.chain.last().unwrap().hash {
+            self.remember(cand);
+        }
+        changes
+    }
+
+    fn remember(&mut self, chain: Vec<Blk>) {
+        self.old.retain(|c| c.last().unwrap().hash != chain.last().unwrap().hash);
+        self.old.push(chain);
+        if self.old.len() > 4 {
+            self.old.remove(0);
+        }
+    }
+
+    /// abandoned chains whose tip is not on the main chain (candidates for a switch-back)
+    fn abandoned(&self) -> Vec<Vec<Blk>> {
+        self.old
+            .iter()
+            .filter(|c| {
+                let n = c.len() - 1;
+                !(n < self.chain.len() && self.chain[n].hash == c[n].hash)
+            })
+            .cloned()
+            .collect()
+    }
+
+    fn truncate(&mut self, out: &mut Out, target: u64) {
+        let hash = self.chain[target as usize].hash.clone();
+        if let Err(e) = self.n().truncate(hash) {
+            out.oracle_fail("node-truncate-fails", &e);
+            self.dead = true;
+            return;
+        }
+        if (target as usize) + 1 < self.chain.len() {
+            let old = self.chain.clone();
+            self.remember(old);
+        }
+        self.chain.truncate(target as usize + 1);
+        let op = format!("nswitch {target}");
+        let l = self.view_line(out, &op);
+        out.op(&op, &l);
+        out.count("node-truncate");
+    }
+
+    fn restart(&mut self, out: &mut Out) {
+        assert!(!self.with_pool, "in-process restart needs a node without the pool service");
+        let before = self.view_line(out, "before restart");
+        let node = self.node.take().unwrap();
+        node.stop();
+        let node = N::start(&self.dir.join("node"), self.consensus.clone(), false);
+        self.node = Some(node);
+        let l = self.view_line(out, "nrestart");
+        if l != before {
+            out.oracle_fail("node-restart-changes-view", &format!("before: {before} after: {l}"));
+        }
+        out.op("nrestart", &l);
+        out.count("node-restart");
+    }
+
+    /// (b) the commit verifier as a black box: block tip+1 committing `ids` (no proposals of its own)
+    /// is submitted to the node; accepted <=> every id is in the oracle set. An accepted block stays
+    /// (it becomes the new tip), a rejected one leaves the node unchanged. Returns the verdict.
+    fn verify(&mut self, out: &mut Out, spec: &Spec, what: &str) -> bool {
+        let ids: &[u64] = &spec.commits;
+        let (wset, wgap) = self.window();
+        let (sset, _, _) = self.store_window();
+        let expect_ok = ids.iter().all(|i| sset.contains(i));
+        let tip = self.tip();
+        let parent = self.chain.last().unwrap().hash.clone();
+        let (blk, union) = self.build(&parent, spec);
+        let r = self.n().process(&blk);
+        let ok = r == Ok(true);
+        if ok != expect_ok {
+            out.oracle_fail(
+                "node-commit-verdict-not-window",
+                &format!("{what}: verify {} at block {}: node says {:?}, stored window set={}; delivered window set={} gap={}", show_list(ids), tip + 1, r, show_set(&sset), show_set(&wset), show_set(&wgap)),
+            );
+        }
+        if let Err(e) = &r {
+            if !e.contains("Commit") && !e.contains("commit") {
+                out.oracle_fail("node-commit-rejected-for-another-reason", &format!("{what}: verify {}: {e}", show_list(ids)));
+            }
+        }
+        out.op(&format!("verify {}", show_list(ids)), if ok { "ok" } else { "invalid" });
+        out.count(if ok { "node-commit-accepted" } else { "node-commit-rejected" });
+        if ok {
+            self.chain.push(Blk { hash: blk.hash(), ids: union.clone(), committed: ids.to_vec() });
+            let op = format!("nswitch {tip} {}", show_list(&union));
+            let l = self.view_line(out, &op);
+            out.op(&op, &l);
+        } else if self.n().tip_hash() != parent {
+            out.oracle_fail("node-tip-unexpected", &format!("{what}: a rejected block moved the tip"));
+            self.dead = true;
+        }
+        ok
     }
 }
 
-fn gen_ids(rng: &mut Rng) -> Vec<u64> {
+fn gen_ids(rng: &mut Rng, n_tx: u64) -> Vec<u64> {
     let k = match rng.below(8) {
         0 | 1 => 0,
         2..=5 => 1,
@@ -130,7 +522,7 @@ fn gen_ids(rng: &mut Rng) -> Vec<u64> {
     };
     let mut v: Vec<u64> = vec![];
     for _ in 0..k {
-        let id = if rng.chance(3, 4) { rng.range(1, N_TX) } else { 100 + rng.below(6) };
+        let id = if rng.chance(3, 4) { rng.range(1, n_tx) } else { 100 + rng.below(6) };
         if !v.contains(&id) {
             v.push(id);
         }
@@ -138,56 +530,43 @@ fn gen_ids(rng: &mut Rng) -> Vec<u64> {
     v
 }
 
-fn node_case(out: &mut Out, rng: &mut Rng, base: &std::path::Path, case_no: usize, n_ops: usize) {
+fn gen_spec(rng: &mut Rng, n_tx: u64, uncle_chance: (u64, u64)) -> Spec {
+    Spec { ids: gen_ids(rng, n_tx), uncle_ids: if rng.chance(uncle_chance.0, uncle_chance.1) { Some(gen_ids(rng, n_tx)) } else { None }, commits: vec![] }
+}
+
+// ------------------------------------------------------------------------------------------------
+// family `node`: random histories
+// ------------------------------------------------------------------------------------------------
+
+const N_TX: u64 = 12;
+
+fn node_case(out: &mut Out, rng: &mut Rng, base: &Path, case_no: usize, n_ops: usize) {
     let wins: [(u64, u64); 5] = [(2, 10), (1, 2), (2, 4), (1, 1), (3, 5)];
     let window = *rng.pick(&wins);
-    let cfg = NodeCfg { epoch_len: 1000, window, genesis_cells: N_TX, with_pool: false, ..Default::default() };
-    let consensus = make_consensus(&cfg);
-    let dir = base.join(format!("case{case_no}"));
-    let node = Node::start(&dir.join("node"), consensus.clone(), &cfg);
-    let builder = ChainBuilder::new(consensus.clone(), &dir.join("builder"));
-    let cells = genesis_cells(&consensus);
-    let txs: Vec<TransactionView> = (0..N_TX as usize).map(|i| spend_tx(&cells[i..i + 1], 1, 1000, i as u64)).collect();
-    let mut sim = Sim { cfg: cfg.clone(), node: Some(node), builder, txs, idmap: HashMap::new(), chain: vec![], salt: 0 };
-    for i in (1..=N_TX).chain(100..106) {
-        let p = sim.pid(i);
-        sim.idmap.insert(p, i);
-    }
-    sim.chain.push(Blk { hash: consensus.genesis_hash(), ids: vec![], committed: vec![] });
-    out.begin_case(&format!("node w={},{}", window.0, window.1));
-    out.op(&format!("cfg {} {}", window.0, window.1), &format!("ok {} {}", window.0, window.1));
-    let l = sim.view_line(out, "nboot");
-    out.op("nboot", &l);
-    let (mut reorgs, mut restarts, mut commits_ok, mut commits_bad, mut uncles) = (0, 0, 0, 0, 0);
+    let mut sim = Sim::new(base, &format!("case{case_no}"), window, N_TX, false);
+    sim.begin(out, "node");
+    let (close, far) = window;
+    let (mut reorgs, mut restarts, mut commits_ok, mut commits_bad, mut backs) = (0, 0, 0, 0, 0);
     for _ in 0..n_ops {
-        let tip = sim.chain.len() as u64 - 1;
-        match rng.below(20) {
+        if sim.dead {
+            break;
+        }
+        let tip = sim.tip();
+        match rng.below(24) {
             0..=8 => {
-                // extend, sometimes with an uncle
-                let ids = gen_ids(rng);
-                let uids = if rng.chance(1, 4) { Some(gen_ids(rng)) } else { None };
-                let parent = sim.chain.last().unwrap().hash.clone();
-                let (blk, union) = sim.build(&parent, &ids, uids.as_deref(), None);
-                if blk.uncles().hashes().len() > 0 {
-                    uncles += 1;
+                let spec = gen_spec(rng, N_TX, (1, 4));
+                if spec.uncle_ids.is_some() && tip >= 1 {
+                    out.count("node-block-with-uncle");
                 }
-                let r = sim.node.as_ref().unwrap().process(&blk);
-                if r != Ok(true) {
-                    out.oracle_fail("node-rejects-valid-block", &format!("extend at {}: {:?}", tip + 1, r));
-                    break;
-                }
-                sim.chain.push(Blk { hash: blk.hash(), ids: union.clone(), committed: vec![] });
-                let op = format!("nswitch {tip} {}", show_list(&union));
-                let l = sim.view_line(out, &op);
-                out.op(&op, &l);
+                let base_chain = sim.chain.clone();
+                sim.deliver(out, base_chain, &[spec], "extend");
                 out.count("node-extend");
             }
             9..=12 => {
-                // reorganisation to a longer branch from `common`
+                // first-time fork to a longer branch from `common`
                 if tip == 0 {
                     continue;
                 }
-                let (close, far) = window;
                 let depth = match rng.below(5) {
                     0 => 1,
                     1 => rng.range(1, close + 1),
@@ -199,91 +578,49 @@ fn node_case(out: &mut Out, rng: &mut Rng, base: &std::path::Path, case_no: usiz
                 .max(1);
                 let common = tip - depth;
                 let len = depth + rng.range(1, 2);
-                let mut parent = sim.chain[common as usize].hash.clone();
-                let mut branch: Vec<(Byte32, Vec<u64>)> = vec![];
-                let mut switched = false;
-                let mut failed = false;
-                for k in 0..len {
-                    let ids = gen_ids(rng);
-                    // uncles only where the parent of the uncle is on the new branch or the common part
-                    let uids = if k >= 1 && rng.chance(1, 5) { Some(gen_ids(rng)) } else { None };
-                    let (blk, union) = sim.build(&parent, &ids, uids.as_deref(), None);
-                    let r = sim.node.as_ref().unwrap().process(&blk);
-                    if r != Ok(true) {
-                        out.oracle_fail("node-rejects-valid-block", &format!("branch block {} from common {common}: {:?}", k + 1, r));
-                        failed = true;
-                        break;
+                let specs: Vec<Spec> = (0..len).map(|k| if k >= 1 { gen_spec(rng, N_TX, (1, 5)) } else { gen_spec(rng, N_TX, (0, 1)) }).collect();
+                let base_chain = sim.chain[..=common as usize].to_vec();
+                let ch = sim.deliver(out, base_chain, &specs, "fork");
+                if ch > 0 {
+                    reorgs += 1;
+                    out.count("node-reorg");
+                    if depth > far {
+                        out.count("node-reorg-deeper-than-window");
                     }
-                    parent = blk.hash();
-                    branch.push((blk.hash(), union));
-                    let is_tip = sim.node.as_ref().unwrap().tip_hash() == blk.hash();
-                    if is_tip && !switched {
-                        // the whole branch so far was attached in one step
-                        switched = true;
-                        sim.chain.truncate(common as usize + 1);
-                        let mut op = format!("nswitch {common}");
-                        for (hash, ids) in &branch {
-                            sim.chain.push(Blk { hash: hash.clone(), ids: ids.clone(), committed: vec![] });
-                            op.push(' ');
-                            op.push_str(&show_list(ids));
-                        }
-                        let l = sim.view_line(out, &op);
-                        out.op(&op, &l);
-                    } else if is_tip {
-                        let t = sim.chain.len() as u64 - 1;
-                        let (hash, ids) = branch.last().unwrap().clone();
-                        sim.chain.push(Blk { hash, ids: ids.clone(), committed: vec![] });
-                        let op = format!("nswitch {t} {}", show_list(&ids));
-                        let l = sim.view_line(out, &op);
-                        out.op(&op, &l);
-                    } else if switched {
-                        out.oracle_fail("node-tip-unexpected", "branch block after the switch did not become tip");
-                    }
-                }
-                if failed {
-                    break;
-                }
-                if !switched {
-                    out.oracle_fail("node-no-reorg-to-longer-branch", &format!("common {common} len {len} tip {tip}"));
-                    break;
-                }
-                reorgs += 1;
-                out.count("node-reorg");
-                if depth > far {
-                    out.count("node-reorg-deeper-than-window");
                 }
             }
             13 | 14 => {
-                // truncate
                 if tip == 0 {
                     continue;
                 }
                 let target = if rng.chance(1, 5) { 0 } else { rng.range(0, tip - 1) };
-                let hash = sim.chain[target as usize].hash.clone();
-                if let Err(e) = sim.node.as_ref().unwrap().controller().truncate(hash) {
-                    out.oracle_fail("node-truncate-fails", &format!("{e}"));
-                    break;
-                }
-                sim.chain.truncate(target as usize + 1);
-                let op = format!("nswitch {target}");
-                let l = sim.view_line(out, &op);
-                out.op(&op, &l);
-                out.count("node-truncate");
+                sim.truncate(out, target);
             }
             15 | 16 => {
-                // restart on the same directory
-                let before = sim.view_line(out, "before restart");
-                let node = sim.node.take().unwrap();
-                node.stop();
-                let node = Node::start(&dir.join("node"), consensus.clone(), &cfg);
-                sim.node = Some(node);
-                let l = sim.view_line(out, "nrestart");
-                if l != before {
-                    out.oracle_fail("node-restart-changes-view", &format!("before: {before} after: {l}"));
-                }
-                out.op("nrestart", &l);
+                sim.restart(out);
                 restarts += 1;
-                out.count("node-restart");
+            }
+            17..=19 => {
+                // switch back to an abandoned chain (its blocks above the fork point were verified
+                // before: ForkChanges::verified_len() > 0), or extend a cut-off verified branch
+                let cands = sim.abandoned();
+                if cands.is_empty() {
+                    continue;
+                }
+                let b = rng.pick(&cands).clone();
+                let need = (sim.chain.len() + 1).saturating_sub(b.len()).max(1) + rng.below(2) as usize;
+                if need > 14 {
+                    continue;
+                }
+                let specs: Vec<Spec> = (0..need).map(|_| gen_spec(rng, N_TX, (1, 6))).collect();
+                let common = sim.chain.iter().zip(b.iter()).take_while(|(x, y)| x.hash == y.hash).count() - 1;
+                let reattached = b.len() - 1 - common;
+                let ch = sim.deliver(out, b, &specs, "switch-back");
+                if ch > 0 && reattached > 0 {
+                    backs += 1;
+                    reorgs += 1;
+                    out.count("node-switch-back");
+                }
             }
             _ => {
                 // commitment of a real transaction in block tip+1: accepted iff proposed in the window
@@ -293,63 +630,875 @@ fn node_case(out: &mut Out, rng: &mut Rng, base: &std::path::Path, case_no: usiz
                 if free.is_empty() {
                     continue;
                 }
-                // prefer ids at the edges: in the set, in the gap, or just left
                 let cands: Vec<u64> = free.iter().copied().filter(|i| wset.contains(i) || wgap.contains(i)).collect();
                 let id = if !cands.is_empty() && rng.chance(4, 5) { *rng.pick(&cands) } else { *rng.pick(&free) };
-                let expect_ok = wset.contains(&id);
-                let ids = gen_ids(rng);
-                let parent = sim.chain.last().unwrap().hash.clone();
-                let (blk, union) = sim.build(&parent, &ids, None, Some(id));
-                let r = sim.node.as_ref().unwrap().process(&blk);
-                let ok = r == Ok(true);
-                if ok != expect_ok {
-                    out.oracle_fail("node-commit-verdict-not-window", &format!("verify {id} at block {}: node says {:?}, window set={} gap={}", tip + 1, r, show_set(&wset), show_set(&wgap)));
-                }
-                if let Err(e) = &r {
-                    if !e.contains("Commit") && !e.contains("commit") {
-                        out.oracle_fail("node-commit-rejected-for-another-reason", &format!("verify {id}: {e}"));
-                    }
-                }
-                out.op(&format!("verify {id}"), if ok { "ok" } else { "invalid" });
-                if ok {
+                let own = gen_ids(rng, N_TX);
+                if sim.verify(out, &Spec { ids: own, uncle_ids: None, commits: vec![id] }, "random") {
                     commits_ok += 1;
-                    sim.chain.push(Blk { hash: blk.hash(), ids: union.clone(), committed: vec![id] });
-                    let op = format!("nswitch {tip} {}", show_list(&union));
-                    let l = sim.view_line(out, &op);
-                    out.op(&op, &l);
                 } else {
                     commits_bad += 1;
                 }
-                out.count(if ok { "node-commit-accepted" } else { "node-commit-rejected" });
             }
         }
     }
-    if uncles > 0 {
-        out.count("node-case-with-uncle-proposals");
-    }
     if reorgs > 0 && restarts > 0 && commits_ok > 0 && commits_bad > 0 {
-        out.nontrivial(format!("node w={window:?} reorgs={reorgs} restarts={restarts} ok={commits_ok} bad={commits_bad} len={}", sim.chain.len()));
+        out.nontrivial(format!("node w={window:?} reorgs={reorgs} backs={backs} restarts={restarts} ok={commits_ok} bad={commits_bad} len={}", sim.chain.len()));
     }
-    if let Some(n) = sim.node.take() {
-        n.stop();
+    sim.finish();
+}
+
+// ------------------------------------------------------------------------------------------------
+// family `edge`: commitments at every distance class, proposals in main blocks / only in uncles
+// ------------------------------------------------------------------------------------------------
+
+#[derive(Clone, Copy, PartialEq, Debug)]
+enum Place {
+    Main,
+    Uncle,
+}
+
+struct Item {
+    tx: u64,
+    props: Vec<(u64, Place)>,
+    commit_at: u64,
+    label: String,
+}
+
+fn edge_case(out: &mut Out, rng: &mut Rng, base: &Path, window: (u64, u64)) {
+    let (c, f) = window;
+    let n_tx = 24;
+    let mut sim = Sim::new(base, &format!("edge-{c}-{f}"), window, n_tx, false);
+    sim.begin(out, "edge");
+    let mut txs: Vec<u64> = (1..=n_tx).collect();
+    rng.shuffle(&mut txs);
+    let mut next_tx = 0usize;
+    let mut take = || {
+        next_tx += 1;
+        txs[next_tx - 1]
+    };
+    let mut items: Vec<Item> = vec![];
+    // short-chain prelude (the window start is clamped at genesis)
+    if c >= 2 {
+        items.push(Item { tx: take(), props: vec![(1, Place::Main)], commit_at: 1 + c - 1, label: "low d=close-1".into() });
     }
-    drop(sim);
-    let _ = std::fs::remove_dir_all(&dir);
+    items.push(Item { tx: take(), props: vec![(1, Place::Main)], commit_at: 1 + c, label: "low d=close".into() });
+    items.push(Item { tx: take(), props: vec![(2, Place::Uncle)], commit_at: 2 + f, label: "low uncle d=far".into() });
+    // the planned part starts where nothing is clamped any more
+    let pad = f + 3;
+    let mut dists: Vec<u64> = vec![c, f, f + 1, f + 2];
+    if c >= 2 {
+        dists.push(c - 1);
+    }
+    if f > c + 1 {
+        dists.push(rng.range(c + 1, f - 1));
+    }
+    rng.shuffle(&mut dists);
+    let mut p = pad;
+    for d in &dists {
+        for place in [Place::Main, Place::Uncle] {
+            items.push(Item { tx: take(), props: vec![(p, place)], commit_at: p + d, label: format!("{place:?} d={}", dist_label(*d, c, f)) });
+        }
+        p += 1;
+    }
+    // re-proposals
+    // R1: expired by the first proposal (d = far+1), renewed by a second one at distance close
+    items.push(Item { tx: take(), props: vec![(p, Place::Main), (p + f + 1 - c, Place::Uncle)], commit_at: p + f + 1, label: "re expired+close".into() });
+    p += 1;
+    if c >= 2 {
+        // R2: in the set by the first proposal (d = far) AND in the gap by a second (d = close-1)
+        items.push(Item { tx: take(), props: vec![(p, Place::Uncle), (p + f - (c - 1), Place::Main)], commit_at: p + f, label: "re set+gap".into() });
+        p += 1;
+        // R3: expired by the first (d = far+1) and only in the gap by the second (d = close-1)
+        items.push(Item { tx: take(), props: vec![(p, Place::Main), (p + f + 1 - (c - 1), Place::Main)], commit_at: p + f + 1, label: "re expired+gap".into() });
+        p += 1;
+    }
+    if f >= c + 1 {
+        // R4: twice in the committable part
+        items.push(Item { tx: take(), props: vec![(p, Place::Main), (p + 1, Place::Uncle)], commit_at: p + 1 + f, label: "re set+set".into() });
+    }
+    let last = items.iter().map(|i| i.commit_at).max().unwrap();
+    let mut accepted = 0;
+    let mut rejected = 0;
+    for h in 1..=last {
+        if sim.dead {
+            break;
+        }
+        assert_eq!(sim.tip() + 1, h);
+        // commitments due in this block: those the oracle forbids are offered one by one (each must
+        // be rejected and leave the node unchanged), the others all together in the block that stays
+        let due: Vec<usize> = (0..items.len()).filter(|i| items[*i].commit_at == h).collect();
+        let (sset, _, _) = sim.store_window();
+        let mut good: Vec<u64> = vec![];
+        for i in &due {
+            let it = &items[*i];
+            // the plan's expectation, by arithmetic on the planned heights alone
+            let planned = it.props.iter().any(|(ph, _)| h - ph >= c && h - ph <= f);
+            if planned != sset.contains(&it.tx) {
+                out.count("edge-plan-mismatch");
+                eprintln!("edge plan mismatch: {} tx {} at {h}: planned {planned}, stored window {}", it.label, it.tx, show_set(&sset));
+            }
+            if sset.contains(&it.tx) {
+                good.push(it.tx);
+                out.count(&format!("edge accept {}", it.label));
+            } else {
+                out.count(&format!("edge reject {}", it.label));
+                if sim.verify(out, &Spec { ids: vec![], uncle_ids: None, commits: vec![it.tx] }, &it.label.clone()) {
+                    // a commitment outside the window was accepted: node and plan are out of step
+                    sim.dead = true;
+                    break;
+                }
+                rejected += 1;
+            }
+        }
+        if sim.dead {
+            break;
+        }
+        // the block of this height: planned proposals (+ an arbitrary unique id), planned uncle
+        let mut own: Vec<u64> = items.iter().filter(|it| it.props.contains(&(h, Place::Main))).map(|it| it.tx).collect();
+        let unc: Vec<u64> = items.iter().filter(|it| it.props.contains(&(h, Place::Uncle))).map(|it| it.tx).collect();
+        if rng.chance(1, 2) {
+            let u = sim.unique_id();
+            own.push(u);
+        }
+        let spec = Spec { ids: own, uncle_ids: if unc.is_empty() { None } else { Some(unc) }, commits: good.clone() };
+        if !good.is_empty() {
+            // (b) for the accepted side: the block that stays commits them all
+            accepted += good.len();
+            if !sim.verify(out, &spec, "edge block with commitments") {
+                // wrongly rejected (reported by `verify`): the plan cannot go on
+                sim.dead = true;
+            }
+        } else {
+            let base_chain = sim.chain.clone();
+            sim.deliver(out, base_chain, &[spec], "edge block");
+        }
+    }
+    if !sim.dead {
+        out.nontrivial(format!("edge w={window:?} accepted={accepted} rejected={rejected} len={}", sim.chain.len()));
+    }
+    sim.finish();
+}
+
+fn dist_label(d: u64, c: u64, f: u64) -> &'static str {
+    if d + 1 == c {
+        "close-1"
+    } else if d == c {
+        "close"
+    } else if d == f {
+        "far"
+    } else if d == f + 1 {
+        "far+1"
+    } else if d == f + 2 {
+        "far+2"
+    } else {
+        "mid"
+    }
+}
+
+// ------------------------------------------------------------------------------------------------
+// family `fork`: reorganisation shapes of every depth relative to the window
+// ------------------------------------------------------------------------------------------------
+
+fn fork_spec(sim: &mut Sim, rng: &mut Rng, uncle: bool) -> Spec {
+    // every block carries a unique id (so that a lost table row is visible), sometimes a shared one
+    let mut ids = vec![sim.unique_id()];
+    if rng.chance(1, 3) {
+        ids.push(100 + rng.below(4));
+    }
+    let uncle_ids = if uncle && rng.chance(1, 4) { Some(vec![sim.unique_id(), 100 + rng.below(4)]) } else { None };
+    Spec { ids, uncle_ids, commits: vec![] }
+}
+
+fn fork_case(out: &mut Out, rng: &mut Rng, base: &Path, window: (u64, u64), restart_chance: (u64, u64)) {
+    let (c, f) = window;
+    let mut sim = Sim::new(base, &format!("fork-{c}-{f}"), window, 2, false);
+    sim.begin(out, "fork");
+    // base chain longer than the window
+    let l0 = f + 3;
+    let specs: Vec<Spec> = (0..l0).map(|k| fork_spec(&mut sim, rng, k >= 1)).collect();
+    let g = sim.chain.clone();
+    sim.deliver(out, g, &specs, "base");
+    let mut depths: Vec<u64> = vec![1, c, c + 1, f, f + 1, f + 2];
+    if f >= 2 {
+        depths.push(f - 1);
+    }
+    if c >= 2 {
+        depths.push(c - 1);
+    }
+    depths.sort();
+    depths.dedup();
+    rng.shuffle(&mut depths);
+    let mut shapes = 0;
+    let maybe_restart = |sim: &mut Sim, out: &mut Out, rng: &mut Rng| {
+        if !sim.dead && rng.chance(restart_chance.0, restart_chance.1) {
+            sim.restart(out);
+        }
+    };
+    for d in depths {
+        if sim.dead {
+            break;
+        }
+        let common = sim.tip();
+        let root = sim.chain.clone();
+        // A: d blocks
+        let specs: Vec<Spec> = (0..d).map(|k| fork_spec(&mut sim, rng, k >= 1)).collect();
+        sim.deliver(out, root.clone(), &specs, "A");
+        let a = sim.chain.clone();
+        maybe_restart(&mut sim, out, rng);
+        // B: first-time fork of depth d (d+1 blocks from the fork point)
+        let specs: Vec<Spec> = (0..d + 1).map(|k| fork_spec(&mut sim, rng, k >= 1)).collect();
+        let ch = sim.deliver(out, root.clone(), &specs, "B first-time fork");
+        if ch == 0 && !sim.dead {
+            out.oracle_fail("node-no-reorg-to-longer-branch", &format!("B: common {common} depth {d}"));
+            break;
+        }
+        let b = sim.chain.clone();
+        out.count("fork-first-time");
+        maybe_restart(&mut sim, out, rng);
+        // A': switch back; the d blocks of A above the fork point were verified before
+        let specs: Vec<Spec> = (0..2).map(|_| fork_spec(&mut sim, rng, true)).collect();
+        let ch = sim.deliver(out, a, &specs, "A' switch-back");
+        if ch == 0 && !sim.dead {
+            out.oracle_fail("node-no-reorg-to-longer-branch", &format!("A': common {common} depth {d}"));
+            break;
+        }
+        out.count("fork-switch-back");
+        maybe_restart(&mut sim, out, rng);
+        // B': and back again (d+1 verified blocks re-attached)
+        let specs: Vec<Spec> = (0..2 + rng.below(2)).map(|_| fork_spec(&mut sim, rng, true)).collect();
+        let ch = sim.deliver(out, b, &specs, "B' switch-back");
+        if ch == 0 && !sim.dead {
+            out.oracle_fail("node-no-reorg-to-longer-branch", &format!("B': common {common} depth {d}"));
+            break;
+        }
+        out.count("fork-switch-back");
+        maybe_restart(&mut sim, out, rng);
+        if sim.dead {
+            break;
+        }
+        // truncate to the fork point, then extend the cut-off (verified) branch by one block:
+        // several attached blocks, none detached, verified_len > 0
+        let cut = sim.chain.clone();
+        sim.truncate(out, common);
+        maybe_restart(&mut sim, out, rng);
+        if rng.chance(1, 2) {
+            // a partial truncation first: the cut-off branch is then re-attached from the middle
+            let spec = fork_spec(&mut sim, rng, false);
+            sim.deliver(out, cut, &[spec], "extend cut-off branch");
+            out.count("fork-extend-cut-off-branch");
+            maybe_restart(&mut sim, out, rng);
+            if sim.dead {
+                break;
+            }
+            let mid = rng.range(common, sim.tip());
+            sim.truncate(out, mid);
+            sim.truncate(out, common);
+        }
+        shapes += 1;
+        out.nontrivial(format!("fork w={window:?} depth={d}"));
+    }
+    let _ = shapes;
+    sim.finish();
+}
+
+// ------------------------------------------------------------------------------------------------
+// family `pool`: the tx-pool's use of the view
+// ------------------------------------------------------------------------------------------------
+
+#[derive(Clone, Copy, PartialEq, Eq, Debug, PartialOrd, Ord)]
+enum Stage {
+    Pending,
+    Gap,
+    Proposed,
+}
+
+impl Sim {
+    fn tpc(&self) -> &ckb_tx_pool::TxPoolController {
+        self.n().shared.tx_pool_controller()
+    }
+
+    /// wait until the pool's snapshot is at the node's tip
+    fn sync_pool(&self, out: &mut Out) {
+        let t = Instant::now();
+        loop {
+            let tip = self.n().tip_hash();
+            if let Ok(info) = self.tpc().get_tx_pool_info() {
+                if info.tip_hash == tip {
+                    return;
+                }
+            }
+            if t.elapsed() > Duration::from_secs(30) {
+                out.count("pool-sync-timeout");
+                return;
+            }
+            std::thread::sleep(Duration::from_millis(2));
+        }
+    }
+
+    fn stages(&self) -> BTreeMap<u64, Stage> {
+        let d = self.tpc().verif_read(|pool| pool.verif_pool_map().verif_dump()).expect("verif_read");
+        d.entries
+            .iter()
+            .map(|e| {
+                (
+                    self.small(&e.id),
+                    match e.status {
+                        Status::Pending => Stage::Pending,
+                        Status::Gap => Stage::Gap,
+                        Status::Proposed => Stage::Proposed,
+                    },
+                )
+            })
+            .collect()
+    }
+
+    /// what the stored window says about an id (`get_tx_status` as the property wants it)
+    fn oracle_stage(&self, id: u64) -> Stage {
+        let (sset, sgap, _) = self.store_window();
+        if sset.contains(&id) {
+            Stage::Proposed
+        } else if sgap.contains(&id) {
+            Stage::Gap
+        } else {
+            Stage::Pending
+        }
+    }
+
+    /// staging of every pooled entry against the stored window. An entry staged Gap whose id is in
+    /// no part of the window is C12's known finding `stage-gap-outside-window` (counted, not failed).
+    fn staging_mismatch(&self, st: &BTreeMap<u64, Stage>, expect_pooled: &BTreeSet<u64>) -> Option<String> {
+        let pooled: BTreeSet<u64> = st.keys().copied().collect();
+        if &pooled != expect_pooled {
+            return Some(format!("pooled ids {} expected {}", show_set(&pooled), show_set(expect_pooled)));
+        }
+        for (id, s) in st {
+            let o = self.oracle_stage(*id);
+            if *s != o && !(*s == Stage::Gap && o == Stage::Pending) {
+                return Some(format!("tx {id} is staged {s:?}, the stored window says {o:?}"));
+            }
+        }
+        None
+    }
+
+    /// (c) after a tip change (or a submission): poll until the pool's staging and the block
+    /// template agree with the stored window; report what was last seen otherwise
+    fn check_pool(&mut self, out: &mut Out, expect_pooled: &BTreeSet<u64>, what: &str) -> BTreeMap<u64, Stage> {
+        let last = self.settle_pool(out, expect_pooled, what);
+        self.pool_line(out, &last);
+        last
+    }
+
+    fn pool_line(&self, out: &mut Out, last: &BTreeMap<u64, Stage>) {
+        let proposed: Vec<u64> = last.iter().filter(|(_, s)| **s == Stage::Proposed).map(|(id, _)| *id).collect();
+        let pooled: Vec<u64> = last.keys().copied().collect();
+        out.op(&format!("pool {}", show_list(&pooled)), &format!("proposed={}", show_list(&proposed)));
+        out.count("pool-checked");
+    }
+
+    fn settle_pool(&mut self, out: &mut Out, expect_pooled: &BTreeSet<u64>, what: &str) -> BTreeMap<u64, Stage> {
+        self.sync_pool(out);
+        let t = Instant::now();
+        let patience = if self.dead { Duration::from_millis(200) } else { Duration::from_secs(12) };
+        let mut last;
+        loop {
+            let st = self.stages();
+            let mut problem = self.staging_mismatch(&st, expect_pooled).map(|p| ("pool-stage-not-window", p));
+            if problem.is_none() {
+                // the template packages exactly the pooled ids of the committable set
+                let want: BTreeSet<u64> = st.iter().filter(|(id, _)| self.oracle_stage(**id) == Stage::Proposed).map(|(id, _)| *id).collect();
+                match self.tpc().get_block_template(None, None, None) {
+                    Ok(Ok(t)) => {
+                        let block: packed::Block = t.into();
+                        let block = block.into_view();
+                        let got: BTreeSet<u64> = block.transactions().iter().skip(1).map(|tx| self.small(&tx.proposal_short_id())).collect();
+                        if block.parent_hash() != self.n().tip_hash() {
+                            problem = Some(("pool-template-not-window", format!("template parent is not the tip")));
+                        } else if got != want {
+                            problem = Some(("pool-template-not-window", format!("template commits {}, committable and pooled: {}", show_set(&got), show_set(&want))));
+                        }
+                    }
+                    other => problem = Some(("pool-template-not-window", format!("no template: {:?}", other.map(|r| r.map(|_| ()).map_err(|e| e.to_string())).map_err(|e| e.to_string())))),
+                }
+            }
+            last = st;
+            match problem {
+                None => break,
+                Some((cls, p)) => {
+                    if t.elapsed() > patience {
+                        out.oracle_fail(cls, &format!("{what}: {p} (tip {})", self.tip()));
+                        self.dead = true;
+                        break;
+                    }
+                    std::thread::sleep(Duration::from_millis(5));
+                }
+            }
+        }
+        if last.iter().any(|(id, s)| *s == Stage::Gap && self.oracle_stage(*id) == Stage::Pending) {
+            out.count("pool-gap-entry-outside-window (C12 known finding)");
+        }
+        last
+    }
+
+    /// submit a transaction at the current tip: its stage must be what the stored window says
+    fn submit(&mut self, out: &mut Out, id: u64, pooled: &mut BTreeSet<u64>) {
+        let tx = self.txs[id as usize - 1].clone();
+        let want = self.oracle_stage(id);
+        match self.tpc().submit_local_tx(tx) {
+            Ok(Ok(())) => {}
+            other => {
+                out.oracle_fail("pool-rejects-valid-tx", &format!("submit {id}: {:?}", other.map(|r| r.map_err(|e| e.to_string())).map_err(|e| e.to_string())));
+                self.dead = true;
+                return;
+            }
+        }
+        pooled.insert(id);
+        // the entry appears with the stage chosen by get_tx_status
+        let t = Instant::now();
+        let got = loop {
+            let st = self.stages();
+            if let Some(s) = st.get(&id) {
+                break Some(*s);
+            }
+            if t.elapsed() > Duration::from_secs(12) {
+                break None;
+            }
+            std::thread::sleep(Duration::from_millis(2));
+        };
+        let name = |s: Stage| match s {
+            Stage::Proposed => "proposed",
+            Stage::Gap => "gap",
+            Stage::Pending => "fresh",
+        };
+        match got {
+            Some(s) => {
+                if s != want {
+                    out.oracle_fail("pool-status-not-window", &format!("tx {id} submitted at tip {} was staged {s:?}; the stored window says {want:?}", self.tip()));
+                    self.dead = true;
+                }
+                out.op(&format!("status {id}"), name(s));
+                out.count(&format!("pool-submit-{}", name(s)));
+            }
+            None => {
+                out.oracle_fail("pool-rejects-valid-tx", &format!("submit {id}: accepted but never pooled"));
+                self.dead = true;
+            }
+        }
+    }
+
+    /// a tip change with the pool attached: `nswitchm` line (ids moved out of Proposed = the
+    /// detached_proposal_id handed to the pool, restricted to the entries that stay pooled)
+    fn deliver_pool(&mut self, out: &mut Out, base: Vec<Blk>, specs: &[Spec], pooled: &mut BTreeSet<u64>, what: &str) {
+        let before = self.stages();
+        let (old_set, _, _) = self.store_window();
+        if let Some(first) = specs.first().filter(|s| !s.commits.is_empty()) {
+            // recorded for the replay only (the model answers ok)
+            out.op(&format!("ncommit {}", show_list(&first.commits)), "ok");
+        }
+        // the blocks are delivered one by one; only the last one may change the tip
+        let mut cand = base;
+        for (k, spec) in specs.iter().enumerate() {
+            let parent = cand.last().unwrap().hash.clone();
+            let (blk, union) = self.build(&parent, spec);
+            let r = self.n().process(&blk);
+            if r != Ok(true) {
+                out.oracle_fail("node-rejects-valid-block", &format!("{what}: block {}: {:?}", blk.number(), r));
+                self.dead = true;
+                return;
+            }
+            cand.push(Blk { hash: blk.hash(), ids: union, committed: spec.commits.clone() });
+            let is_tip = self.n().tip_hash() == blk.hash();
+            if is_tip != (k + 1 == specs.len()) {
+                out.oracle_fail("node-tip-unexpected", &format!("{what}: block {} is_tip={is_tip}", blk.number()));
+                self.dead = true;
+                return;
+            }
+        }
+        let common = self.chain.iter().zip(cand.iter()).take_while(|(a, b)| a.hash == b.hash).count() - 1;
+        // transactions committed on the detached part and not on the attached part are re-admitted
+        let detached: BTreeSet<u64> = self.chain[common + 1..].iter().flat_map(|b| b.committed.iter().copied()).collect();
+        let attached: BTreeSet<u64> = cand[common + 1..].iter().flat_map(|b| b.committed.iter().copied()).collect();
+        for i in &attached {
+            pooled.remove(i);
+        }
+        for i in detached.difference(&attached) {
+            pooled.insert(*i);
+            out.count("pool-readmitted-after-detach");
+        }
+        self.chain = cand.clone();
+        self.sync_pool(out);
+        let after = self.settle_pool(out, pooled, what);
+        // ids moved out of Proposed by this change, among the entries pooled before and after
+        let watch: Vec<u64> = before.iter().filter(|(id, s)| **s == Stage::Proposed && after.contains_key(*id)).map(|(id, _)| *id).collect();
+        let moved: Vec<u64> = watch.iter().copied().filter(|id| after[id] != Stage::Proposed).collect();
+        let (new_set, _, _) = self.store_window();
+        let left: Vec<u64> = watch.iter().copied().filter(|id| old_set.contains(id) && !new_set.contains(id)).collect();
+        if moved != left {
+            out.oracle_fail("pool-moved-not-left-window", &format!("{what}: entries moved out of Proposed: {}; ids that left the stored committable window: {}", show_list(&moved), show_list(&left)));
+        }
+        if !moved.is_empty() {
+            out.count("pool-entry-moved-back");
+        }
+        let mut op = format!("nswitchm {} {common}", show_list(&watch));
+        for b in &cand[common + 1..] {
+            op.push(' ');
+            op.push_str(&show_list(&b.ids));
+        }
+        let l = self.view_line(out, &format!("{what}: {op}"));
+        out.op(&op, &format!("moved={} {l}", show_list(&moved)));
+        self.pool_line(out, &after);
+    }
+}
+
+fn pool_case(out: &mut Out, rng: &mut Rng, base: &Path, window: (u64, u64), no: usize) {
+    let (c, f) = window;
+    assert!(c >= 2 && f >= c + 1);
+    let mut sim = Sim::new(base, &format!("pool-{c}-{f}-{no}"), window, 12, true);
+    sim.begin(out, "pool");
+    let mut ids: Vec<u64> = (1..=12).collect();
+    rng.shuffle(&mut ids);
+    let (a, b, ab, n, e, a2, b2, ab2, m) = (ids[0], ids[1], ids[2], ids[3], ids[4], ids[5], ids[6], ids[7], ids[8]);
+    let mut pooled: BTreeSet<u64> = BTreeSet::new();
+    // 1. pad: chain longer than the window
+    let h0 = f + 2;
+    for _ in 0..h0 {
+        if sim.dead {
+            break;
+        }
+        let u = sim.unique_id();
+        let ch = sim.chain.clone();
+        sim.deliver_pool(out, ch, &[Spec { ids: vec![u], ..Default::default() }], &mut pooled, "pad");
+    }
+    // 2. early submissions: nothing proposed yet
+    for id in [a2, b2, ab2, m] {
+        if !sim.dead {
+            sim.submit(out, id, &mut pooled);
+        }
+    }
+    if !sim.dead {
+        sim.check_pool(out, &pooled.clone(), "early submissions");
+    }
+    // 3. proposals placed by their distance from block T+1
+    let t = h0 + f + 1;
+    let mut plan: BTreeMap<u64, (Vec<u64>, Vec<u64>)> = BTreeMap::new(); // height -> (own, uncle)
+    let at = |d: u64| t + 1 - d;
+    let ab2_first = if c + 1 <= f { c + 1 } else { c };
+    let mut put = |h: u64, id: u64, uncle: bool| {
+        let e = plan.entry(h).or_default();
+        if uncle { e.1.push(id) } else { e.0.push(id) }
+    };
+    put(at(f + 1), e, false);
+    put(at(f), a, rng.chance(1, 2));
+    put(at(f), ab, true);
+    put(at(c - 1), ab, false);
+    put(at(c), a2, rng.chance(1, 2));
+    put(at(ab2_first), ab2, false);
+    put(at(1), ab2, false);
+    put(at(c - 1), b, rng.chance(1, 2));
+    put(at(1), b2, false);
+    for h in h0 + 1..=t {
+        if sim.dead {
+            break;
+        }
+        let (mut own, unc) = plan.get(&h).cloned().unwrap_or_default();
+        if rng.chance(1, 2) {
+            own.push(sim.unique_id());
+        }
+        let ch = sim.chain.clone();
+        sim.deliver_pool(out, ch, &[Spec { ids: own, uncle_ids: if unc.is_empty() { None } else { Some(unc) }, commits: vec![] }], &mut pooled, "planned proposals");
+    }
+    // 4. submissions at tip T: set only / gap only / both / neither / expired
+    for (id, want) in [(a, Stage::Proposed), (b, Stage::Gap), (ab, Stage::Proposed), (n, Stage::Pending), (e, Stage::Pending)] {
+        if sim.dead {
+            break;
+        }
+        if sim.oracle_stage(id) != want {
+            out.count("pool-plan-mismatch");
+            eprintln!("pool plan mismatch: tx {id} planned {want:?}, stored window {:?}", sim.oracle_stage(id));
+        }
+        sim.submit(out, id, &mut pooled);
+    }
+    if !sim.dead {
+        sim.check_pool(out, &pooled.clone(), "submissions at T");
+    }
+    // 5. A1 commits a and ab (both committable) and proposes m; A2..Ac
+    let root = sim.chain.clone();
+    if !sim.dead {
+        let ch = sim.chain.clone();
+        sim.deliver_pool(out, ch, &[Spec { ids: vec![m], uncle_ids: None, commits: vec![a, ab] }], &mut pooled, "A1 commits");
+    }
+    for _ in 1..c {
+        if sim.dead {
+            break;
+        }
+        let u = sim.unique_id();
+        let ch = sim.chain.clone();
+        sim.deliver_pool(out, ch, &[Spec { ids: vec![u], ..Default::default() }], &mut pooled, "A");
+    }
+    if !sim.dead && sim.stages().get(&m) != Some(&Stage::Proposed) {
+        out.count("pool-plan-mismatch");
+    }
+    // 6. reorganisation to B (c+1 blocks from T): a and ab are re-admitted (ab proposed in B1 and
+    // again in the last block: both parts of the view), m is not proposed on B: back from Proposed;
+    // n (pending so far) is proposed in B1 and in the last block: the stage move must file it Proposed
+    if !sim.dead {
+        let mut specs: Vec<Spec> = vec![];
+        for k in 0..=c {
+            let mut own = vec![sim.unique_id()];
+            if k == 0 {
+                own.push(a);
+                own.push(ab);
+                own.push(n);
+            }
+            if k == c {
+                own.push(ab);
+                own.push(n);
+            }
+            specs.push(Spec { ids: own, ..Default::default() });
+        }
+        sim.deliver_pool(out, root, &specs, &mut pooled, "reorg to B");
+        out.count("pool-reorg");
+    }
+    // 7. two more blocks: the re-proposed ids move on
+    for _ in 0..2 {
+        if sim.dead {
+            break;
+        }
+        let u = sim.unique_id();
+        let ch = sim.chain.clone();
+        sim.deliver_pool(out, ch, &[Spec { ids: vec![u], ..Default::default() }], &mut pooled, "after reorg");
+    }
+    if !sim.dead {
+        out.nontrivial(format!("pool w={window:?} len={}", sim.chain.len()));
+    }
+    // the pool service keeps `Shared` alive until the process exits: stop the chain service, keep going
+    sim.finish();
+}
+
+// ------------------------------------------------------------------------------------------------
+
+// ------------------------------------------------------------------------------------------------
+// replay of a recorded case (violation replay files, shrinking): the op lines are executed literally
+// on a fresh node. Blocks are rebuilt from the lines: `nswitch` carries the union ids per block (they
+// become the block's own proposals; uncle placement is not recorded), a branch whose leading blocks
+// repeat an abandoned chain (same ids above the same fork point) is delivered ON that chain, so that
+// switch-backs re-attach previously verified blocks as in the recorded run. Transactions committed by
+// blocks of the pool family are not recorded (only `verify` lines carry commitments).
+// ------------------------------------------------------------------------------------------------
+
+fn parse_ids(s: &str) -> Vec<u64> {
+    if s == "-" { vec![] } else { s.split(',').map(|x| x.parse().expect("id")).collect() }
+}
+
+impl Sim {
+    /// base chain and remaining specs for a recorded `nswitch <common> <ids>*`
+    fn replay_base(&self, common: usize, branch: &[Vec<u64>]) -> (Vec<Blk>, Vec<Spec>) {
+        let mut best: (usize, Vec<Blk>) = (0, self.chain[..=common].to_vec());
+        for o in &self.old {
+            if o.len() <= common + 1 || o[common].hash != self.chain[common].hash {
+                continue;
+            }
+            let k = o[common + 1..].iter().zip(branch.iter()).take_while(|(b, ids)| &b.ids == *ids).count();
+            // the whole abandoned chain must be re-used (its tip is the parent of the first new block)
+            if k > best.0 && k < branch.len() && common + 1 + k == o.len() {
+                best = (k, o.clone());
+            }
+        }
+        let specs = branch[best.0..].iter().map(|ids| Spec { ids: ids.clone(), ..Default::default() }).collect();
+        (best.1, specs)
+    }
+}
+
+fn replay_case(out: &mut Out, base: &Path, lines: &[String], with_pool: bool) {
+    let mut sim: Option<Sim> = None;
+    let mut label = "replay".to_string();
+    let mut pooled: BTreeSet<u64> = BTreeSet::new();
+    let mut pending_commits: Vec<u64> = vec![];
+    let mut i = 0;
+    while i < lines.len() {
+        let ts: Vec<&str> = lines[i].split(' ').collect();
+        i += 1;
+        match ts[0] {
+            "case" => {
+                if let Some(s) = sim.take() {
+                    s.finish();
+                }
+                label = ts.get(2).unwrap_or(&"replay").to_string();
+            }
+            "cfg" => {
+                let w: (u64, u64) = (ts[1].parse().expect("close"), ts[2].parse().expect("far"));
+                if let Some(s) = sim.take() {
+                    s.finish();
+                }
+                let mut s = Sim::new(base, &format!("replay-{i}"), w, 24, with_pool);
+                s.begin(out, &label);
+                sim = Some(s);
+                pooled.clear();
+            }
+            "nboot" => {}
+            _ => {
+                let sim = sim.as_mut().expect("cfg first");
+                if sim.dead {
+                    continue;
+                }
+                match ts[0] {
+                    "nswitch" => {
+                        let common: usize = ts[1].parse().expect("common");
+                        if common >= sim.chain.len() {
+                            out.count("replay-out-of-step");
+                            sim.dead = true;
+                            continue;
+                        }
+                        let branch: Vec<Vec<u64>> = ts[2..].iter().map(|x| parse_ids(x)).collect();
+                        if branch.is_empty() {
+                            sim.truncate(out, common as u64);
+                        } else {
+                            let (b, specs) = sim.replay_base(common, &branch);
+                            sim.deliver(out, b, &specs, "replay");
+                        }
+                    }
+                    "nrestart" => {
+                        if !with_pool {
+                            sim.restart(out);
+                        }
+                    }
+                    "verify" => {
+                        let commits = parse_ids(ts[1]);
+                        // an accepted block is followed by its own `nswitch <tip> <ids>` line
+                        let mut ids = vec![];
+                        // (in the recording a block is accepted iff all its commitments are in the
+                        // stored window, or the case ends there)
+                        let (sset, _, _) = sim.store_window();
+                        let accepted = commits.iter().all(|c| sset.contains(c));
+                        if let Some(next) = lines.get(i).filter(|_| accepted) {
+                            let nt: Vec<&str> = next.split(' ').collect();
+                            if nt[0] == "nswitch" && nt.len() == 3 && nt[1].parse::<u64>().ok() == Some(sim.tip()) {
+                                ids = parse_ids(nt[2]);
+                                i += 1;
+                            }
+                        }
+                        sim.verify(out, &Spec { ids, uncle_ids: None, commits }, "replay");
+                    }
+                    "status" => {
+                        let id: u64 = ts[1].parse().expect("id");
+                        assert!(id >= 1 && id <= sim.n_tx, "status: not a transaction id");
+                        sim.submit(out, id, &mut pooled);
+                    }
+                    "ncommit" => {
+                        pending_commits = parse_ids(ts[1]);
+                    }
+                    "nswitchm" => {
+                        let common: usize = ts[2].parse().expect("common");
+                        if common >= sim.chain.len() {
+                            out.count("replay-out-of-step");
+                            sim.dead = true;
+                            continue;
+                        }
+                        let mut specs: Vec<Spec> = ts[3..].iter().map(|x| Spec { ids: parse_ids(x), ..Default::default() }).collect();
+                        assert!(!specs.is_empty(), "nswitchm: no block");
+                        specs[0].commits = std::mem::take(&mut pending_commits);
+                        let b = sim.chain[..=common].to_vec();
+                        sim.deliver_pool(out, b, &specs, &mut pooled, "replay");
+                        // deliver_pool prints the `pool` line that follows in the recording
+                        if lines.get(i).map_or(false, |l| l.starts_with("pool ")) {
+                            i += 1;
+                        }
+                    }
+                    "pool" => {
+                        sim.check_pool(out, &pooled.clone(), "replay");
+                    }
+                    other => panic!("C20 node replay: unknown op {other}"),
+                }
+            }
+        }
+    }
+    if let Some(s) = sim.take() {
+        s.finish();
+    }
 }
 
 pub fn run(opts: &Opts) {
     let mut out = Out::new(&opts.out);
-    if opts.replay.is_some() {
-        // node-level cases depend on freshly built blocks; recorded cases are replayed at table level
-        out.finish("replay (not applicable to the node stream)");
+    if let Some(rp) = &opts.replay {
+        let family = opts.extra.first().map(|s| s.as_str()).unwrap_or("node").to_string();
+        let text = std::fs::read_to_string(rp).expect("read replay");
+        let lines = read_replay_ops(rp);
+        let header_stream = text.lines().find_map(|l| l.strip_prefix("# property C20 stream ").map(|r| r.split(' ').next().unwrap_or("").to_string()));
+        let table_level = lines.iter().any(|l| {
+            let t = l.split(' ').next().unwrap_or("");
+            matches!(t, "boot" | "switch" | "restart" | "insert" | "remove" | "finalize" | "view-reset") || l == "cfg default"
+        });
+        let pool_ops = lines.iter().any(|l| l.starts_with("status ") || l.starts_with("nswitchm ") || l.starts_with("pool "));
+        let mine = match header_stream {
+            Some(h) => h == family,
+            None => !table_level && (if pool_ops { family == "pool" } else { family == "node" }),
+        };
+        if !mine || table_level {
+            out.finish("replay (a case recorded for another stream)");
+            return;
+        }
+        let base = scratch_dir(&opts.out, &format!("c20replay{family}"));
+        replay_case(&mut out, &base, &lines, family == "pool");
+        let _ = std::fs::remove_dir_all(&base);
+        out.finish("replayed case");
+        if family == "pool" {
+            std::process::exit(0);
+        }
         return;
     }
-    let mut rng = Rng::new(opts.seed);
-    let base = scratch_dir(&opts.out, "c20");
-    let cases = if opts.thorough() { 90 } else { 8 } * opts.scale as usize;
-    for i in 0..cases {
-        node_case(&mut out, &mut rng, &base, i, 45);
+    let family = opts.extra.first().map(|s| s.as_str()).unwrap_or("node").to_string();
+    let mut rng = Rng::new(opts.seed ^ (family.bytes().map(|b| b as u64).sum::<u64>() << 40));
+    let base = scratch_dir(&opts.out, &format!("c20{family}"));
+    let k = opts.scale as usize * if opts.thorough() { 4 } else { 1 };
+    match family.as_str() {
+        "node" => {
+            let cases = if opts.thorough() { 90 } else { 6 } * opts.scale as usize;
+            for i in 0..cases {
+                node_case(&mut out, &mut rng, &base, i, 45);
+            }
+            let _ = std::fs::remove_dir_all(&base);
+            out.finish("node cases with at least one reorganisation, one restart, one accepted and one rejected commitment (distinct by window, counts and final length)");
+        }
+        "edge" => {
+            for _ in 0..k {
+                for w in [(2, 10), (1, 1), (1, 2), (2, 4)] {
+                    edge_case(&mut out, &mut rng, &base, w);
+                }
+                if opts.thorough() {
+                    for w in [(3, 5), (1, 10), (4, 4), (2, 3)] {
+                        edge_case(&mut out, &mut rng, &base, w);
+                    }
+                }
+            }
+            let _ = std::fs::remove_dir_all(&base);
+            out.finish("edge cases that ran to the end of the plan (distinct by window, accepted/rejected commitments, length)");
+        }
+        "fork" => {
+            for _ in 0..k {
+                for w in [(2, 10), (1, 1), (1, 2), (2, 4)] {
+                    fork_case(&mut out, &mut rng, &base, w, (1, 3));
+                }
+                if opts.thorough() {
+                    for w in [(3, 5), (2, 2), (1, 4)] {
+                        fork_case(&mut out, &mut rng, &base, w, (1, 2));
+                    }
+                }
+            }
+            let _ = std::fs::remove_dir_all(&base);
+            out.finish("completed fork shapes A / B / A' / B' / truncate / cut-off extension (distinct by window and depth)");
+        }
+        "pool" => {
+            let mut no = 0;
+            for _ in 0..k {
+                for w in [(2, 4), (2, 10), (3, 5)] {
+                    no += 1;
+                    pool_case(&mut out, &mut rng, &base, w, no);
+                }
+            }
+            out.finish("pool cases that ran to the end of the script (distinct by window and length)");
+            let _ = std::fs::remove_dir_all(&base);
+            // the tx-pool service keeps its runtime tasks alive
+            std::process::exit(0);
+        }
+        other => panic!("C20: unknown family {other}"),
     }
-    let _ = std::fs::remove_dir_all(&base);
-    out.finish("node cases with at least one reorganisation, one restart, one accepted and one rejected commitment (distinct by window, counts and final length)");
 }
